@@ -49,6 +49,7 @@ Theorem from_ast_panics_on_dangling_alias_refuted :
   from_ast [mkSchema "p" m0 "" ty_zero [("A", mkObject "A" [] (TRef A0 "p" "Missing") "p" "A")]]
   = Panic "invalid memory address or nil pointer dereference (AsStruct on a reference that does not resolve)".
 Proof. vm_compute. reflexivity. Qed.
+Print Assumptions from_ast_panics_on_dangling_alias_refuted.
 Theorem from_ast_overflows_on_alias_cycle_refuted :
   from_ast [mkSchema "p" m0 "" ty_zero [("A", mkObject "A" [] (TRef A0 "p" "A") "p" "A")]] = OutOfFuel.
 Proof. vm_compute. reflexivity. Qed.
